@@ -244,6 +244,7 @@ func runHookCase(b *Base, c HookCase) (labels map[string]int, vs []Violation) {
 	msgFixed := &types.MsgCreateFixedPriceAuction{Auctioneer: a(0), StartPrice: fixP, SellingCoin: sellCoin, PayingCoinDenom: "paya", VestingSchedules: sched, StartTime: T0, EndTime: end0}
 	msgBatch := &types.MsgCreateBatchAuction{Auctioneer: a(1), StartPrice: minP, MinBidPrice: minP, SellingCoin: sellCoin, PayingCoinDenom: "paya", VestingSchedules: sched, MaxExtendedRound: c.MaxRounds, ExtendedRoundRate: dec("0.5"), StartTime: T0, EndTime: end0}
 	msgLater := &types.MsgCreateFixedPriceAuction{Auctioneer: a(2), StartPrice: fixP, SellingCoin: sellCoin, PayingCoinDenom: "payb", StartTime: T0.Add(time.Hour), EndTime: end0}
+	msgEmpty := &types.MsgCreateBatchAuction{Auctioneer: a(2), StartPrice: minP, MinBidPrice: minP, SellingCoin: sellCoin, PayingCoinDenom: "payb", VestingSchedules: sched, MaxExtendedRound: 0, ExtendedRoundRate: dec("0.5"), StartTime: T0, EndTime: end0}
 	capOf := func(x math.Int) math.Int {
 		if x.GT(IntFromB(supply)) {
 			return IntFromB(supply)
@@ -332,6 +333,16 @@ func runHookCase(b *Base, c HookCase) (labels map[string]int, vs []Violation) {
 				return err
 			},
 			args: func(pre, post *Snap) []string { return []string{fixedArgs(msgLater), "2|" + fixedArgs(msgLater)} },
+			obs:  func(pre, post *Snap) []string { return []string{"stored=false", "stored=true"} }},
+		{name: "createBatch(no bids)", method: []string{"BeforeBatchAuctionCreated", "AfterBatchAuctionCreated"}, isMsg: true,
+			run: func(ctx sdk.Context) error {
+				if err := msgEmpty.ValidateBasic(); err != nil {
+					return err
+				}
+				_, err := ms.CreateBatchAuction(ctx, msgEmpty)
+				return err
+			},
+			args: func(pre, post *Snap) []string { return []string{batchArgs(msgEmpty), "3|" + batchArgs(msgEmpty)} },
 			obs:  func(pre, post *Snap) []string { return []string{"stored=false", "stored=true"} }},
 		{name: "addAllowed(a=0)", method: []string{"BeforeAllowedBiddersAdded"},
 			run:  func(ctx sdk.Context) error { return k.AddAllowedBidders(ctx, 0, abList(0, 3, 4)) },
@@ -575,9 +586,9 @@ func genHookCase(t *rapid.T, g *Gen) HookCase {
 		c.Plan.Position = uni(t, "fault-position", c.Listeners)
 		c.Plan.Occurrence = uni(t, "fault-occurrence", 3)
 		switch c.Plan.Method {
-		case "BeforeBatchAuctionCreated", "AfterBatchAuctionCreated", "BeforeAuctionCanceled", "BeforeBidModified", "BeforeAllowedBidderUpdated":
+		case "BeforeAuctionCanceled", "BeforeBidModified", "BeforeAllowedBidderUpdated":
 			c.Plan.Occurrence = 0
-		case "BeforeFixedPriceAuctionCreated", "AfterFixedPriceAuctionCreated", "BeforeAllowedBiddersAdded", "BeforeSellingCoinsAllocated":
+		case "BeforeBatchAuctionCreated", "AfterBatchAuctionCreated", "BeforeFixedPriceAuctionCreated", "AfterFixedPriceAuctionCreated", "BeforeAllowedBiddersAdded":
 			c.Plan.Occurrence %= 2
 		}
 	}
@@ -644,3 +655,10 @@ func RunC17(t *testing.T) {
 }
 
 var _ = big.NewInt
+
+// newBareKeeper builds a keeper over the module store without any hooks set.
+func newBareKeeper(b *Base) *keeper.Keeper {
+	k := keeper.NewKeeper(b.App.AppCodec(), addresscodec.NewBech32Codec("cosmos"), runtime.NewKVStoreService(b.App.GetKey(types.StoreKey)), log.NewNopLogger(),
+		b.GovAddr, b.App.AccountKeeper, b.App.BankKeeper, b.App.DistrKeeper)
+	return &k
+}
